@@ -132,5 +132,6 @@ def run(ctx):
         ctx.cov["explorer_cached_quorum_go_identical_to_tree"] = same
     except Exception as e:
         ctx.cov["explorer_cached_quorum_go_identical_to_tree"] = "unknown: %r" % e
+    __import__("ralverify_common").differential(ctx)   # X11: governance.ral parseAndVerifyVAA translated in full vs the node, on real signatures
     ctx.assumptions = ["Solidity and Ralph sources are read, not executed (no solc / Ralph compiler): the extractor's reading of `/` as floor division on unsigned integers is trusted",
                        "Go int modelled as Z; overflow excluded by theorem C07_go_no_overflow for n < 2^59"]
